@@ -1656,7 +1656,8 @@ def _writer_model(repo, mc, ml):
                     config_key_exists=ml.config_key_exists,
                     get_config_value_func=get_func)
     globs = _env(repo, interp, WR, dfn=dfn,
-                 copy=Namespace("copy", deepcopy=_copy.deepcopy))
+                 copy=Namespace("copy", deepcopy=_copy.deepcopy,
+                                copy=_copy.copy))
     from ..lib_C11 import ClassModel
     writer = ClassModel(repo.cls(WR, "RTDCWriter"), globs, interp,
                         strict_instances=True)
@@ -2386,6 +2387,268 @@ def r114_copies(ctx, repo):
     ctx.stat("R11.4 Configuration(cfg=...) sites next to text forms", n)
 
 
+def _configuration_model(repo, setitem, bound_k, mc):
+    """make(cfg, disable_checks) -> instance of the *interpreted*
+    Configuration class (``__init__``, ``update``, ``__getitem__``, ``copy``
+    ... run as written).  Its sections are stand-ins of ConfigurationDict
+    whose every store goes through the interpreted ``__setitem__`` funnel of
+    build_config_model (verification, converter of the key), so a typed value
+    is whatever the key's converter returns and a [user] / unchecked value is
+    the object that was handed in."""
+    from ..lib_C11 import ClassModel, InstanceModel
+    interp = Interp()
+    conf = repo.cls(CONF, "Configuration")
+
+    class SecDict(dict):
+        model_object = True
+        _PUBLIC = {"__setitem__", "__getitem__", "__contains__",
+                   "__delitem__", "__iter__", "__len__", "get", "pop",
+                   "setdefault", "update", "items", "keys", "values",
+                   "section"}
+
+        def __init__(self, section=None, *a, **k):
+            dict.__init__(self)
+            self.section = section
+            src = dict(*a, **k)
+            for kk in src:
+                self[kk] = src[kk]
+
+        def model_getattr(self, attr):
+            if attr not in self._PUBLIC:
+                raise AnalysisError(
+                    f"Configuration model: ConfigurationDict.{attr} is not "
+                    "modelled")
+            return getattr(self, attr)
+
+        def __setitem__(self, k, v):
+            rec = setitem(self.section, k, v)
+            if getattr(rec, "raised", None):
+                raise ModelRaise(rec.raised, "ConfigurationDict.__setitem__")
+            for kk, vv in rec.stored:
+                dict.__setitem__(self, kk, vv)
+
+        def __getitem__(self, k):
+            try:
+                return dict.__getitem__(self, bound_k(k))
+            except KeyError:
+                raise ModelRaise("KeyError", repr(k))
+
+        def __contains__(self, k):
+            return dict.__contains__(self, bound_k(k))
+
+        def __delitem__(self, k):
+            dict.__delitem__(self, bound_k(k))
+
+        def get(self, k, *a):
+            return dict.get(self, bound_k(k), *a)
+
+        def pop(self, k, *a):
+            return dict.pop(self, bound_k(k), *a)
+
+        def setdefault(self, k, default=None):
+            if k not in self:
+                self[k] = default
+            return dict.get(self, bound_k(k), default)
+
+        def update(self, E=None, **F):
+            for src in (E or {}, F):
+                for kk in src:
+                    self[kk] = src[kk]
+
+        def items(self):
+            return [(k, dict.__getitem__(self, k)) for k in sorted(self)]
+
+        def copy(self):
+            raise AnalysisError("Configuration model: ConfigurationDict.copy "
+                                "is not modelled")
+
+        def __copy__(self):
+            new = SecDict.__new__(SecDict)
+            new.section = self.section
+            dict.update(new, self)
+            return new
+
+        def __deepcopy__(self, memo):
+            new = SecDict.__new__(SecDict)
+            memo[id(self)] = new
+            new.section = self.section
+            for k in self:
+                dict.__setitem__(new, k, _copy.deepcopy(
+                    dict.__getitem__(self, k), memo))
+            return new
+
+    class Instance(InstanceModel):
+        """operators on a Configuration reach its interpreted dunders"""
+
+        def __getitem__(self, k):
+            return self.model_getattr("__getitem__")(k)
+
+        def __contains__(self, k):
+            return self.model_getattr("__contains__")(k)
+
+        def __iter__(self):
+            return iter(self.model_getattr("__iter__")())
+
+        def __len__(self):
+            return self.model_getattr("__len__")()
+
+        def keys(self):
+            return self.model_getattr("keys")()
+
+    def warn(*a, **k):
+        return None
+    warn.model_callable = True
+    dfn = Namespace("dfn", config_keys=mc.config_keys,
+                    CFG_METADATA=mc.CFG_METADATA,
+                    CFG_ANALYSIS=mc.CFG_ANALYSIS)
+    g = _env(repo, interp, CONF, dfn=dfn, ConfigurationDict=SecDict,
+             warnings=Namespace("warnings", warn=warn),
+             copy=Namespace("copy", deepcopy=_copy.deepcopy,
+                            copy=_copy.copy))
+
+    def ctor(*a, **k):
+        inst = Instance(model)
+        init = model._methods.get("__init__")
+        if init is None:
+            raise AnalysisError("Configuration.__init__ vanished")
+        Func(init, g, interp)(inst, *a, **k)
+        return inst
+    model = ClassModel(conf, g, interp, ctor=ctor, strict_instances=True)
+    g.set("Configuration", model)
+
+    def make(cfg=None, disable_checks=False):
+        interp.steps = 0
+        return model(cfg=cfg, disable_checks=disable_checks)
+    make.interp = interp
+    make.SecDict = SecDict
+    make.Instance = Instance
+    return conf, make
+
+
+_MUTABLE = (list, dict, set, bytearray, NdArray)
+
+
+def _mutable_objects(v, path, out, depth=0):
+    """{id: path} of every mutable object reachable from a stored value"""
+    if depth > 6:
+        return
+    if isinstance(v, _MUTABLE):
+        out.setdefault(id(v), path)
+    if isinstance(v, dict):
+        for k in v:
+            _mutable_objects(dict.__getitem__(v, k), f"{path}[{k!r}]", out,
+                             depth + 1)
+    elif isinstance(v, (list, tuple, set)):
+        for i, x in enumerate(v):
+            _mutable_objects(x, f"{path}[{i}]", out, depth + 1)
+    elif isinstance(v, NdArray):
+        _mutable_objects(v.data, path + ".data", out, depth + 1)
+
+
+def _tree_equal(a, b):
+    """_py_equal that also descends into mappings"""
+    if isinstance(a, dict) or isinstance(b, dict):
+        if not (isinstance(a, dict) and isinstance(b, dict)):
+            return False
+        return sorted(a, key=repr) == sorted(b, key=repr) and all(
+            _tree_equal(dict.__getitem__(a, k), dict.__getitem__(b, k))
+            for k in a)
+    seq = (list, tuple, NdArray)
+    if isinstance(a, seq) or isinstance(b, seq):
+        if not (isinstance(a, seq) and isinstance(b, seq)):
+            return False
+        la, lb = list(a), list(b)
+        return len(la) == len(lb) and all(
+            _tree_equal(x, y) for x, y in zip(la, lb))
+    return _py_equal(a, b)
+
+
+def r116(ctx, repo, setitem, bound_k, mc):
+    """a copy of a configuration shares no mutable object with the original
+    (an in-place edit of a value in a copy / hierarchy child / the filter's
+    bookkeeping copy must not change the metadata of the dataset it was taken
+    from, which is what that dataset exports)"""
+    conf, make = _configuration_model(repo, setitem, bound_k, mc)
+    cp = repo.func(CONF, "Configuration.copy")
+
+    def sections(inst):
+        """{section: stand-in dict} of a model instance, through its public
+        interface"""
+        return {sec: inst[sec] for sec in list(inst.keys())}
+
+    scenarios = (
+        ("checked", False,
+         lambda: {"setup": {"channel width": 20.0, "medium": "CellCarrier"},
+                  "filtering": {"polygon filters": [1, 2],
+                                "area_um min": 1.5},
+                  "user": {"gate ids": [1, 2, 3],
+                           "calib": NdArray.of([1.0, 2.5]),
+                           "nested": {"thresholds": [10, 20]},
+                           "pair": (1, [2, 3]), "note": "text", "n": 4}}),
+        ("unchecked (disable_checks)", True,
+         lambda: {"setup": {"channel width": 20.0},
+                  "filtering": {"polygon filters": [3]},
+                  "user": {"gate ids": [1, 2, 3],
+                           "table": [[1, 2], [3, 4]]}}),
+    )
+    for tag, nochk, build in scenarios:
+        problems = []
+        try:
+            orig = make(cfg=build(), disable_checks=nochk)
+            before = _copy.deepcopy({s: dict(d) for s, d in
+                                     sections(orig).items()})
+            make.interp.steps = 0
+            new = orig.model_getattr("copy")()
+        except ModelRaise as e:
+            raise AnalysisError(f"R11.6: Configuration model ({tag}) raises "
+                                f"{e}")
+        if not isinstance(new, make.Instance):
+            raise AnalysisError("R11.6: Configuration.copy does not return a "
+                                "Configuration the model can follow "
+                                f"({type(new).__name__})")
+        if new is orig:
+            problems.append("copy() returns the configuration itself")
+        else:
+            so, sn = sections(orig), sections(new)
+            # the copy holds what the original holds ...
+            for sec, d in so.items():
+                if sec not in sn:
+                    problems.append(f"section [{sec}] is missing in the copy")
+                    continue
+                for k in d:
+                    if k not in sn[sec] or not _tree_equal(
+                            dict.__getitem__(d, k),
+                            dict.__getitem__(sn[sec], k)):
+                        problems.append(
+                            f"[{sec}] '{k}' = {dict.__getitem__(d, k)!r} "
+                            "arrives as "
+                            f"{dict.get(sn[sec], k)!r} in the copy")
+            # ... in objects of its own
+            mo, mn = {}, {}
+            for sec, d in so.items():
+                _mutable_objects(d, f"[{sec}]", mo)
+            for sec, d in sn.items():
+                _mutable_objects(d, f"[{sec}]", mn)
+            shared = sorted(mo[i] for i in set(mo) & set(mn))
+            if shared:
+                problems.append(
+                    f"the copy and the original hold the SAME mutable "
+                    f"object at {', '.join(shared[:3])}"
+                    + (f" (+{len(shared) - 3} more)" if len(shared) > 3
+                       else "") + ": an in-place edit in the copy changes "
+                    "the original's metadata")
+            # the original is left as it was
+            after = {s: dict(d) for s, d in sections(orig).items()}
+            if not problems and not _tree_equal(after, before):
+                problems.append("copy() modifies the original")
+        ctx.ob("R11.6", not problems,
+               f"copy() of a {tag} configuration holds equal values in "
+               "objects of its own" if not problems else
+               f"Configuration.copy ({tag}): " + "; ".join(problems[:2]),
+               node=cp, key=f"{CONF}::Configuration.copy::independent of "
+               f"the original ({tag})")
+
+
 def _ancestors(n):
     p = getattr(n, "parent", None)
     while p is not None:
@@ -2433,6 +2696,9 @@ def run(ctx):
     ctx.rule("R11.5", "every converter accepts its declared output types "
              "and the HDF5 image of its outputs, returns a declared type, "
              "is idempotent (modelled numpy hierarchy)", minimum=45)
+    ctx.rule("R11.6", "a copy of a Configuration (interpreted class on a "
+             "model configuration with mutable [user] / unchecked values) "
+             "shares no mutable object with the original", minimum=2)
     try:
         mp, mc, ml = load_definitions(repo)
     except ModelRaise as e:
@@ -2452,6 +2718,7 @@ def run(ctx):
     _guard("R11.4", r114_rectify, ctx, repo)
     _guard("R11.4", r114_copies, ctx, repo)
     _guard("R11.5", r115, ctx, repo, mp, mc, ml, storable)
+    _guard("R11.6", r116, ctx, repo, setitem, bound_k, mc)
     ctx.model = (mp, mc, ml)
     ctx.evals = ctx.stats.pop("_evals")
 
@@ -3318,4 +3585,42 @@ MUTANTS = list(MUTANTS) + [
       '                self.hparent.config["calculation"])'), "R11.4"),
     ("hierarchy child keeps stale calculation entries", HIER,
      ('            self.config["calculation"].clear()\n', ""), "R11.4"),
+]
+
+# round-7 seeded changes (object lifecycle: what a copy shares)
+_COPY_OLD = "        return Configuration(cfg=copy.deepcopy(self._cfg))"
+MUTANTS = list(MUTANTS) + [
+    ("Configuration.copy hands its own sections to the new object", CONF,
+     (_COPY_OLD, "        return Configuration(cfg=self._cfg)"), "R11.6"),
+    ("Configuration.copy through a shallow copy", CONF,
+     (_COPY_OLD, "        return Configuration(cfg=copy.copy(self._cfg))"),
+     "R11.6"),
+    ("Configuration.copy copies the sections, not their values", CONF,
+     (_COPY_OLD,
+      "        return Configuration(\n"
+      "            cfg={s: dict(self._cfg[s]) for s in self._cfg})"),
+     "R11.6"),
+    ("Configuration.copy returns the configuration itself", CONF,
+     (_COPY_OLD, "        return self"), "R11.6"),
+    ("store_metadata works on a shallow copy of the caller's metadata", WR,
+     ("        meta = copy.deepcopy(meta)\n",
+      "        meta = copy.copy(meta)\n"), "R11.4"),
+]
+TWINS = list(TWINS) + [
+    ("Configuration.copy: deep copy bound to a local first", CONF,
+     (_COPY_OLD,
+      "        cfg = copy.deepcopy(self._cfg)\n"
+      "        return Configuration(cfg=cfg)")),
+    ("Configuration.copy: empty object updated with a deep copy", CONF,
+     (_COPY_OLD,
+      "        new = Configuration()\n"
+      "        new.update(copy.deepcopy(dict(self._cfg)))\n"
+      "        return new")),
+    ("Configuration.copy: deep copy per section", CONF,
+     (_COPY_OLD,
+      "        return Configuration(cfg={\n"
+      "            sec: copy.deepcopy(self[sec]) for sec in self.keys()})")),
+    ("store_metadata: deep copy per section", WR,
+     ("        meta = copy.deepcopy(meta)\n",
+      "        meta = {sec: copy.deepcopy(meta[sec]) for sec in meta}\n")),
 ]
